@@ -179,7 +179,7 @@ PROPS["C15"] = {
     "level_text": "generated value trees (all listed alternatives, boundary integers, strings rich in quotes, backslashes, control characters, UTF-8 of 2-4 bytes, depth up to 1000) are serialised and parsed back; the same trees are written as documents with comments and escapes and checked against a reference comment stripper; every truncation (short texts) and sampled byte flips are parsed for totality and error position; a coverage-guided libFuzzer target with the same oracles runs on arbitrary NUL-free bytes held in exactly sized heap blocks under ASan/UBSan",
     "level_note": "trusted: reference stripper and error-position rule in harness/json_common.hpp, the value-tree model in harness/c15_json.cpp, ASan/UBSan, libFuzzer; doubles are excluded from the round trip (their %f text is lossy and the statement excludes them); strings are NUL-free",
     "technique": "property-based round-trip and differential testing (reference comment stripper) on generated trees plus coverage-guided fuzzing with in-target oracle",
-    "rule": "opfuzz 'tree': flat op lists (push-list, push-map, scalar, string, pop) build a tree; oracle: parse(toString(t)) equals t structurally and under Variant== (two of three parses of a case go through one reused Json::Parser object); decorated document: stripComments == reference and parses to t; all truncations of texts <=200 bytes (24 sampled beyond) and 12 byte flips: no crash, error line/column inside the text. Non-trivial = (tree contains a string needing escapes or non-ASCII bytes AND depth >=2) OR a decorated document with a comment and a string escape. "
+    "rule": "opfuzz 'tree': flat op lists (push-list, push-map, scalar, string, pop) build a tree (3 % of the cases are chains 50-1000 deep, 1 % are lists of 900-1700 small maps; the string pool holds quotes, backslashes, control characters, 2-4 byte sequences, the line / paragraph separators U+2028 / U+2029 and their neighbours, NEL, BOM and cut sequences); oracle: parse(toString(t)) equals t structurally and under Variant== (two of three parses of a case go through one reused Json::Parser object); decorated document: stripComments == reference and parses to t; all truncations of texts <=200 bytes (24 sampled beyond) and 12 byte flips: no crash, error line/column inside the text. Non-trivial = (tree contains a string needing escapes or non-ASCII bytes AND depth >=2) OR a decorated document with a comment and a string escape. "
             "libFuzzer 'fuzz': first byte selects parse or stripComments mode; non-trivial = parsed input with escape-worthy/non-ASCII string at depth >=2 that round-trips, or a well-formed comment-stripping input containing both a comment and a string; distinct by input hash.",
     "assumptions": ["nesting depth <= 1000", "NUL-free input and strings", "lines are separated by CR LF, CR or LF"],
     "parts": [opf("tree", ["harness/c15_json.cpp"], {"cases": 60000, "maxsize": 40}, {"cases": 600000, "maxsize": 120, "workers": 16}, deps=["harness/json_common.hpp"]),
@@ -231,10 +231,10 @@ ENGINES.append({"name": "vsched", "path": "vsched/rt.cpp", "serves_properties": 
 PROPS["C09"] = {
     "level": "exploration",
     "engine": "opfuzz + vsched",
-    "level_text": "(handles) random single-threaded histories of copy / assign (incl. self) / swap / modify / destroy over String, Variant, Xml::Variant and RefCount::Ptr handles against a value model under ASan and the allocation ledger; (threads) 2-4 logical threads, each owning its handles to a common payload, run generated programs under sampled schedules of the deterministic scheduler (uniform, few preemptions, PCT, round robin), with decision points at every atomic / volatile access; a quarantining ledger reports double release, write after release and leaks exactly",
+    "level_text": "(handles) random single-threaded histories of copy / assign (incl. self) / swap / modify / destroy over String, Variant (string, list, map and array payloads), Xml::Variant and RefCount::Ptr handles (also through the converting constructor / assignment from a handle of a derived type), incl. assignment of a value that lives inside the handle's own payload, against a value model under ASan and the allocation ledger; (threads) 2-4 logical threads, each owning its handles to a common payload, run generated programs under sampled schedules of the deterministic scheduler (uniform, few preemptions, PCT, round robin), with decision points at every atomic / volatile access and at every plain access to a location that is also accessed atomically; a quarantining ledger reports double release, write after release and leaks exactly",
     "level_note": "trusted: vsched/rt.cpp (sequentially consistent interleaving at instrumented granularity: atomics, volatile accesses, synchronisation calls), the ledger in engine/pbt.hpp, thread-local value models; weak-memory reorderings are out of reach; schedules are sampled, not enumerated",
     "technique": "stateful property-based testing (single thread) plus randomised deterministic scheduling of generated thread programs (schedule = generated input)",
-    "rule": "threads: case = kind of handle (String, Variant string, Variant list, RefCount::Ptr, Xml::Variant), 2-4 threads, per-thread op lists over 3 handle slots (copy, destroy, assign, modify - for String: append, resize+poke, printf, case mapping, reserve -, read, clear; payloads of 6, 23 and 311 bytes), 12 schedules per case (60 when replaying). Oracle: every handle always reads the value its own thread gave it, objects are destroyed exactly once, no double free / write after free / leak, no deadlock. "
+    "rule": "threads: case = kind of handle (String, Variant string / list / map / array, RefCount::Ptr, RefCount::Ptr through converting copies, Xml::Variant), 2-4 threads, per-thread op lists over 3 handle slots (copy, destroy, assign, modify - for String: append of a character or of another String, resize+poke, printf, case mapping, reserve, attach -, read, clear; payloads of 6, 23 and 311 bytes), 12 schedules per case (60 when replaying). Oracle: every handle always reads the value its own thread gave it, objects are destroyed exactly once, no double free / write after free / leak, no deadlock. "
             "Non-trivial(threads) = some schedule of the case had two consecutive operations on the same reference counter by different threads. handles: 5 handle slots of one kind, ops make / copy / assign (incl. self) / swap (Variant::swap, Ptr::swap) / modify / clear / destroy / raw pointer assignment; every handle reads its model value after every op, RefCount objects are destroyed exactly when their last handle goes; non-trivial(handles) = a swap or assignment between handles of different payloads followed by a destruction; distinct by case text hash.",
     "assumptions": ["each handle is used by one thread only (the statement's proviso)", "sequential consistency"],
     "parts": [opf("handles", ["harness/c09_handles.cpp"], {"cases": 300000, "maxsize": 30}, {"cases": 3000000, "maxsize": 60, "workers": 16}),
@@ -248,7 +248,7 @@ PROPS["C10"] = {
     "level_text": "1-3 client threads, each with a Future<void>, a Future<int> and a Future<String>, run generated programs (start through every overload: free functions with 0-5 and member functions with 0-4 parameters, join, result conversion, destroy, abort, state queries, virtual sleeps that open the worker-retirement window) against freshly installed worker pools of generated size (min 0-2, max 3-5, queue capacity 1/2/4/256; 25% of the cases use the lazily created global pool) under sampled schedules of the deterministic scheduler; decision points at every atomic / volatile access of the lock-free queue, the FastSignal flags and the Signal / Mutex calls",
     "level_note": "trusted: vsched/rt.cpp (sequential consistency at instrumented granularity, virtual time, modelled pthread primitives), execution counters of the started functions; the harness TU includes src/Future.cpp with -fno-access-control to construct pools; schedules are sampled; 'eventually' = no deadlock verdict and completion within the step bound (a step-bound hit is inconclusive)",
     "technique": "randomised deterministic scheduling (schedule = generated input) of generated client programs over generated pool configurations, with execution-count and result oracles and deadlock detection",
-    "rule": "case = pool configuration, 1-3 client programs, 6 schedules (40 when replaying) cycling through uniform / few-preemptions / PCT / round-robin strategies. Oracle: when join / destructor / conversion / restart returns the call has run exactly once with the given arguments, the converted value is the function's return value, isAborted() only after abort(), otherwise isFinished(); at the end every call ran exactly once; no deadlock and no livelock (a thread polling for ever while nobody else can run, e.g. on the pool-creation spin lock); nothing leaked after the pool is destroyed. 20% of the cases are grow / idle past the retirement time / start-together scenarios over several rounds. "
+    "rule": "case = pool configuration, 1-3 client programs (a future that is started again is joined first in one case out of three, otherwise start() itself has to wait for the previous call), 6 schedules (40 when replaying) cycling through uniform / few-preemptions / PCT / round-robin strategies. Oracle: when join / destructor / conversion / restart returns the call has run exactly once with the given arguments, the converted value is the function's return value, isAborted() only after abort(), otherwise isFinished(); at the end every call ran exactly once; no deadlock and no livelock (a thread polling for ever while nobody else can run, e.g. on the pool-creation spin lock); nothing leaked after the pool is destroyed. 20% of the cases are grow / idle past the retirement time / start-together scenarios over several rounds. "
             "Non-trivial = (>=2 clients AND queue capacity <=2 AND >=4 starts: pushes meet a full queue and workers race clients) OR a case that sleeps past the idle-worker retirement time between starts; distinct by case text hash.",
     "assumptions": ["started functions terminate and do not wait on other futures", "a Future object is used by one client thread"],
     "parts": [opf("future", ["harness/c10_future.cpp"], {"cases": 5000, "maxsize": 22}, {"cases": 40000, "maxsize": 24, "workers": 16}, flavour="sched", cflags=["-fno-access-control"], deps=["harness/vs_common.hpp"], fallback_cflags=["-DC10_GLOBAL_POOL_ONLY"], fallback_note="the harness cannot install its own ThreadPool in this tree: every case uses the shared pool"),
